@@ -12,6 +12,10 @@ if ! git -C "$wt" apply "$patch" 2>/dev/null && ! git -C "$wt" apply --3way "$pa
 fi
 ( cd "$(dirname "$0")/.." && VERIF_REPO="$wt" ./check "$id" "$tier" )
 rc=$?
+# remove this worktree's private build products (suffix = first 8 hex digits of sha1 of its path, see ./check)
+suf=$(printf %s "$wt" | sha1sum | cut -c1-8)
+w="$(dirname "$0")/../.work"
+rm -rf "$w"/bin/*_"$suf" "$w/go_$suf.mod" "$w/go_$suf.sum" "$w/evidence_$suf"
 git -C /repo worktree remove --force "$wt"
 git -C /repo worktree prune
 exit $rc
